@@ -574,22 +574,52 @@ class Executor:
         return self.choose([c, z3.Not(c)]) == 0
 
     def concretize(self, v, lo, hi, what='value'):
-        """fork a symbolic bit-vector over [lo,hi]; values outside -> Unsupported"""
+        """fork a symbolic bit-vector over its feasible values in [lo,hi] (enumerated with the
+        solver); a feasible value outside the range ends that path as Unsupported"""
         if isinstance(v, int):
             return v
         v = simp(v)
         if isinstance(v, int):
             return v
         w = v.size()
-        if hi - lo > 4096:
+        pos = len(self.trace)
+        if pos < len(self.prefix):
+            e = self.prefix[pos]
+            self.trace.append(e)
+            if e[0] == 'out':
+                raise Unsupported('%s outside [%d,%d]' % (what, lo, hi))
+            self.add(v == z3.BitVecVal(e[1], w))
+            return e[1]
+        if hi - lo > 70000:
             raise Unsupported('concretize range too large for ' + what)
-        cands = list(range(lo, hi + 1))
-        conds = [v == z3.BitVecVal(c, w) for c in cands]
-        conds.append(z3.And(*[z3.Not(c) for c in conds]) if conds else z3.BoolVal(True))
-        i = self.choose(conds)
-        if i == len(cands):
+        inr = z3.And(z3.UGE(v, z3.BitVecVal(lo, w)), z3.ULE(v, z3.BitVecVal(hi, w)))
+        found = []
+        # try the cached model first
+        self.solver.push()
+        self.solver.add(inr)
+        while len(found) <= hi - lo + 1:
+            r = self.check()
+            if r != z3.sat:
+                if r == z3.unknown:
+                    self.inconclusive.append('concretize unknown: ' + what)
+                break
+            c = self.solver.model().eval(v, model_completion=True).as_long()
+            found.append(c)
+            self.solver.add(v != z3.BitVecVal(c, w))
+        self.solver.pop()
+        out = self.check(z3.Not(inr)) != z3.unsat
+        if not found and not out:
+            raise PathEnd('infeasible')
+        opts = [('val', c) for c in found] + ([('out',)] if out else [])
+        for o in opts[1:]:
+            self.pending.append(self.trace + [o])
+        e = opts[0]
+        self.trace.append(e)
+        if e[0] == 'out':
+            self.add(z3.Not(inr))
             raise Unsupported('%s outside [%d,%d]' % (what, lo, hi))
-        return cands[i]
+        self.add(v == z3.BitVecVal(e[1], w))
+        return e[1]
 
     def must(self, c):
         """is c valid on this path? (no fork)"""
